@@ -35,6 +35,16 @@ static inline std::string gen_ident(Rng &r)
     return W[r.below(r.chance(0.85) ? 20 : 28)];
 }
 
+// text that looks like pretty-format syntax: inside a string it is just text
+static inline std::string tricky_text(Rng &r)
+{
+    static const char *T[] = {"... 7 ", "1 ... 5", "...", " ... ", "3x", "3x1", "[", "]", "[1 2", "1 2]", "% comment", "x ... y", "2 ... ", "'c'", "\"S", "true", "0x1p-3", "(0x1p-1)", "BLOB [1 0x00]", "MIDI [", "2016-11-16 19:44:06", "now", "... 7 ... 9 ... ", "1.0 ... 3.0", "5h ... 9h"};
+    std::string t = T[r.below(25)];
+    if(r.chance(0.3)) t += std::to_string((int)r.range(-3, 12));
+    if(r.chance(0.2)) t = std::to_string((int)r.range(0, 9)) + " " + t;
+    return t;
+}
+
 // one scalar value of type t, full range of the type (finite floats)
 static inline av_t gen_scalar(Rng &r, char t, Store &st)
 {
@@ -54,8 +64,8 @@ static inline av_t gen_scalar(Rng &r, char t, Store &st)
             if(r.chance(0.5)) a.val.d = X[r.below(12)];
             else { uint64_t u; do { u = r.next(); } while((u & 0x7ff0000000000000ull) == 0x7ff0000000000000ull); memcpy(&a.val.d, &u, 8); }
             break; }
-        case 's': a.val.s = st.str(gen_text(r, 100)); break;
-        case 'S': a.val.s = st.str(r.chance(0.6) ? gen_ident(r) : gen_text(r, 40)); break;
+        case 's': a.val.s = st.str(r.chance(0.08) ? tricky_text(r) : gen_text(r, 100)); break;
+        case 'S': a.val.s = st.str(r.chance(0.6) ? gen_ident(r) : r.chance(0.1) ? tricky_text(r) : gen_text(r, 40)); break;
         case 'b': { int len = r.chance(0.8) ? (int)r.range(0, 8) : (int)r.range(0, 40); std::string b; for(int i = 0; i < len; ++i) b += (char)r.next(); a.val.b.len = len; a.val.b.data = st.blob(b); break; }
         case 'm': for(int k = 0; k < 4; ++k) a.val.m[k] = (uint8_t)r.next(); break;
         case 't': {
@@ -64,8 +74,11 @@ static inline av_t gen_scalar(Rng &r, char t, Store &st)
             uint64_t secs;
             switch(r.below(4)) { case 0: secs = (uint64_t)r.below(4102444800ull); break; case 1: secs = (uint64_t)r.below(47000) * 86400; break; case 2: secs = (uint64_t)r.below(47000) * 86400 + (uint64_t)r.below(24) * 3600 + (uint64_t)r.below(60) * 60; break; default: secs = 1479325446; }
             uint64_t fr = 0;
-            if(r.chance(0.4)) { static const uint32_t F[] = {0x80000000u, 0x40000000u, 0x20000000u, 0xc0000000u, 0x00010000u, 0xffffff00u, 0x00000100u}; fr = r.chance(0.6) ? F[r.below(7)] : ((uint32_t)r.next() & 0xffffff00u); }
+            // any fraction with at most 24 significant bits, wherever they lie in the 32-bit field
+            if(r.chance(0.4)) { static const uint32_t F[] = {0x80000000u, 0x40000000u, 0x20000000u, 0xc0000000u, 0x00010000u, 0xffffff00u, 0x00000100u, 0x00000003u, 0x0000000fu, 0x00000001u, 0x00ffffffu};
+                                fr = r.chance(0.5) ? F[r.below(11)] : (uint32_t)(((uint32_t)r.next() & (0xffffffu >> r.below(20))) << r.below(9)); }
             a.val.t = (secs << 32) | fr;
+            if(r.chance(0.03)) a.val.t = 0;      // 1970-01-01 00:00:00 sharp is a time, not "immediately"
             if(a.val.t == 1) a.val.t = 0;
             break; }
         case 'T': a.val.T = 1; break;
